@@ -80,6 +80,33 @@ def spellings(name, rich):
     return list(dict.fromkeys(out))
 
 
+def root_paths(tree):
+    """proposed valid first headers: every root-to-leaf name path with any subset of default nodes omitted,
+    canonical spelling (inputs only: TLC still filters them with Desig)"""
+    out = []
+
+    def rec(n, acc):
+        for k in n["kids"]:
+            sp = spellings(k["name"], False)
+            opts = []
+            if sp:
+                opts.append(acc + [sp[0]])
+            if k["dflt"] or not sp:
+                opts.append(acc)
+            for o in opts:
+                if k["kind"] == "leaf":
+                    if o:
+                        out.append(o)
+                else:
+                    rec(k, o)
+    rec(tree, [])
+    uniq = []
+    for o in out:
+        if o not in uniq:
+            uniq.append(o)
+    return uniq
+
+
 def cands_for(tree, rich):
     names = []
 
@@ -125,11 +152,12 @@ def module(name, ft, cands, defs, first, nxt):
     return (f"---- MODULE {name} ----\nEXTENDS MCExec\n"
             f"C_Tree == {tla_tree(ft)}\n"
             f"C_Cands == {{{', '.join(tla_bytes(c) for c in cands)}}}\n"
+
             + "\n".join(defs) + f"\nC_First == {first}\nC_Next == {nxt}\n====\n")
 
 
 def cfg(maxunits, endings, caps, emit=True):
-    return ("SPECIFICATION Spec\nCONSTANTS\n  Tree <- C_Tree\n  Cands <- C_Cands\n  FirstUnits <- C_First\n  NextUnits <- C_Next\n"
+    return ("SPECIFICATION Spec\nCONSTANTS\n  Tree <- C_Tree\n  MCands <- C_Cands\n  TwinAll = FALSE\n  Cands <- C_Cands\n  FirstUnits <- C_First\n  NextUnits <- C_Next\n"
             f"  MaxUnits = {maxunits}\n  Endings <- C_Endings\n  Caps <- C_Caps\n  Emit = {'TRUE' if emit else 'FALSE'}\n"
             "INVARIANTS EmitCase Order CurIsBranch Twin OwnData Framing Valid\nPROPERTIES Frozen\n"), \
            [f"C_Endings == {{{', '.join(tla_bytes(e) for e in endings)}}}", f"C_Caps == {{{', '.join(map(str, caps))}}}"]
@@ -139,7 +167,7 @@ def run_projection(chk, prop, pname, ft, cands, defs, first, nxt, maxunits, endi
     wd = os.path.join(WORK, f"{prop}-exec")
     os.makedirs(wd, exist_ok=True)
     c, d2 = cfg(maxunits, endings, caps)
-    modname = f"MCExec_{prop}_{pname}"
+    modname = f"MCExec_{prop}_{pname}".replace("-", "_")
     text = module(modname, ft, cands, defs + d2, first, nxt)
     raw = os.path.join(wd, f"{pname}.raw")
     res = tlc(modname, c, f"{prop}-mc-{pname}", workers=workers, gen_text=text, raw_out=raw, timeout=3000)
@@ -197,7 +225,8 @@ def run_c02(chk, tier, seed):
         # singles: every header up to `depth` mnemonics x leading colon x form (+ common commands in both forms)
         all_units = (f"{{Mk(l, p, q) : l \\in {{0, 1}}, p \\in PHdrs({depth}), q \\in BOOLEAN}} "
                      f"\\cup {{Mk(0, <<c>>, q) : c \\in Commons, q \\in BOOLEAN}}")
-        first = f"{{u \\in ({all_units}) : Desig(Root, u.path) # {{}} /\\ ~u.query}}"
+        fp = ", ".join("<<" + ", ".join(tla_bytes(m) for m in p) + ">>" for p in root_paths(tree))
+        first = f"{{u \\in {{Mk(l, p, FALSE) : l \\in {{0, 1}}, p \\in {{{fp}}}}} : Desig(Root, u.path) # {{}} /\\ (u.lead = 1 => ~IsCommon(u))}}"
         nxt = (f"{{Mk(0, p, FALSE) : p \\in PHdrs({3 if th else 2})}} \\cup {{Mk(1, p, TRUE) : p \\in PHdrs({2 if th else 1})}} "
                f"\\cup {{Mk(0, <<c>>, FALSE) : c \\in Commons}}")
         # (a) all single-unit messages, valid or not
@@ -241,7 +270,7 @@ def fault_units():
     for raw in ["A$", "A::X", "1A", "A,", ":;", "GRP:X:", "*OPC:A", "A\xff"]:
         faults.append(U(["A"], lex="hdr", raw=raw))
     # lexical fault in data the handler pulls / does not pull
-    for raw in ["A 1$", "A 'abc", "A #", "A 1,,2", "A (1", "A #H", "A 1.", "A ABCDEFGHIJKLM", "A \"x\"y"]:
+    for raw in ["A 1$", "A 'abc", "A #", "A 1,,2", "A (1", "A #H", "A 1e", "A ABCDEFGHIJKLM", "A \"x\"y"]:
         faults.append(U(["A"], lex="data", raw=raw, h=H(pulls=["req"])))
         faults.append(U(["A"], lex="data", raw=raw, h=H()))
     faults.append(U(["ZZ"]))                       # undefined header
